@@ -366,6 +366,24 @@ func Run(ctx *core.Ctx) int {
 				}
 			}
 		}
+		// C2: a valid block-index module + a module filtered by it with every query kind (absent, string, '-a',
+		// from-params) and every input list: a from-params filter on a module whose first input is not params, or that
+		// has no params input at all, must be refused, not dereferenced
+		for _, ins := range inputLists {
+			if len(ins) > 2 {
+				continue
+			}
+			for f := 5; f <= 8; f++ { // -> "b" x the four query kinds
+				for kind := 1; kind <= 2; kind++ {
+					for out := 0; out < 2; out++ {
+						counts["index-and-filtered-module"]++
+						if !emit(Case{Mods: []ModF{{5, 1, []int{2}, 0, 0, 0}, {kind, 0, ins, 0, f, 0}}, Binaries: 1, Output: out, Start: 0, Stop: 2, Prod: out == 0}) {
+							return
+						}
+					}
+				}
+			}
+		}
 		// D: request-level fields, on a few module configurations
 		cfgs := [][]ModF{
 			{{1, 0, []int{2}, 0, 0, 1}},
